@@ -97,6 +97,11 @@ CHECKS = {
         "note": "Trusted: TLC, monomial gate alphabet, construction of diagonal chain Hamiltonians with root-of-unity phases. Generic (non-commuting, Trotterised) chains longer than two sites are numerical and not covered.",
         "technique": "TLA+ chain model with task interleavings + TLC; spec->code replay in all execution modes (fresh interpreters, order-controlled executor)",
     },
+    "C15": {
+        "text": "Translation.tla states every quantity the library derives from absolute times (sampling times of user callables, state labels, nearest step of float control and correlation times) as a function of time - start_time on an integer tick grid and TLC checks that the pattern relative to the start is identical for every start in {0, 1.0, -0.3, 0.37 dt}; expected states come from the start-free specifications (Influence.tla, PTContract.tla, Correlations.tla). For every shift: Tempo and PtTempo+compute_dynamics with H(t - tau) must reproduce the spec's states, labels shifted by exactly tau and H sampled at the spec's pattern; MeanFieldTempo / compute_dynamics_with_field with H(t - tau, a), f(t - tau, ., a) must equal the unshifted run and call f at the spec's times; float control times + tau and float correlation times + tau must act at / select the same steps.",
+        "note": "Trusted: TLC, the engines of C01-C03/C07/C09. The mean-field part is metamorphic (tau vs 0, 1e-9).",
+        "technique": "TLA+ spec of time-derived quantities + TLC; spec->code replay at shifted time origins; user callables as trace hooks",
+    },
 }
 for e in ENGINES:
     e["serves_properties"] = sorted(CHECKS)
